@@ -238,6 +238,95 @@ static void scenario(const std::string &file, const std::string &text, bool stri
     for (auto *l : std::vector<Logger *>{parser.get(), validator.get(), importer.get(), printer.get(), analyser.get(), annotator.get(), fresh.get()}) forget(l);
 }
 
+// ---- generated import worlds (fault scenarios): main model imports a component and a units from a library file
+static void writeFile(const std::string &path, const std::string &text)
+{
+    std::ofstream f(path, std::ios::binary);
+    f << text;
+}
+
+static std::vector<std::pair<std::string, std::string>> libraryVariants()
+{
+    const std::string ns2 = "http://www.cellml.org/cellml/2.0#", ns11 = "http://www.cellml.org/cellml/1.1#", ns10 = "http://www.cellml.org/cellml/1.0#";
+    auto lib = [](const std::string &ns, const std::string &extraInComponent, const std::string &extraInModel, const std::string &unitsName, const std::string &compName) {
+        return "<?xml version=\"1.0\" encoding=\"UTF-8\"?>\n<model xmlns=\"" + ns + "\" name=\"lib\">\n"
+               "  <units name=\"" + unitsName + "\"><unit units=\"metre\" prefix=\"milli\"/></units>\n" + extraInModel +
+               "  <component name=\"" + compName + "\">\n    <variable name=\"x\" units=\"dimensionless\"/>\n" + extraInComponent + "  </component>\n"
+               "  <component name=\"other\">" + "</component>\n</model>\n";
+    };
+    std::vector<std::pair<std::string, std::string>> v;
+    v.push_back({"ok20", lib(ns2, "", "", "mm", "comp")});
+    v.push_back({"ok11", lib(ns11, "", "", "mm", "comp")});
+    v.push_back({"ok10", lib(ns10, "", "", "mm", "comp")});
+    v.push_back({"err20_component", lib(ns2, "    stray text\n", "", "mm", "comp")});
+    v.push_back({"err11_component", lib(ns11, "    stray text\n", "", "mm", "comp")});
+    v.push_back({"err10_component", lib(ns10, "    <variable units=\"dimensionless\"/>stray\n", "", "mm", "comp")});
+    v.push_back({"err11_elsewhere", lib(ns11, "", "  <units><unit units=\"second\"/></units>\n  stray model text\n", "mm", "comp")});
+    v.push_back({"err10_elsewhere", lib(ns10, "", "  <units><unit units=\"second\"/></units>\n", "mm", "comp")});
+    v.push_back({"err20_elsewhere", lib(ns2, "", "  <units><unit units=\"second\"/></units>\n  <banana/>\n", "mm", "comp")});
+    v.push_back({"err11_two", lib(ns11, "    stray\n    <variable name=\"x\" units=\"dimensionless\"/>\n", "  stray\n  <units/>\n", "mm", "comp")});
+    v.push_back({"missing_entities", lib(ns2, "", "", "cm", "compo")});
+    v.push_back({"missing_entities11", lib(ns11, "  garbage\n", "", "cm", "compo")});
+    v.push_back({"notxml", "this is <not xml"});
+    v.push_back({"othervocab", "<?xml version=\"1.0\"?><html><body/></html>"});
+    v.push_back({"empty", ""});
+    return v;
+}
+
+static void worldScenario(const std::string &dir, const std::string &libName, bool strict, int what)
+{
+    std::string imports;
+    if (what & 1) imports += "  <import xmlns:xlink=\"http://www.w3.org/1999/xlink\" xlink:href=\"" + libName + ".cellml\"><component name=\"c1\" component_ref=\"comp\"/></import>\n";
+    if (what & 2) imports += "  <import xmlns:xlink=\"http://www.w3.org/1999/xlink\" xlink:href=\"" + libName + ".cellml\"><units name=\"u1\" units_ref=\"mm\"/></import>\n";
+    if (what & 4) imports += "  <import xmlns:xlink=\"http://www.w3.org/1999/xlink\" xlink:href=\"nofile_" + libName + ".cellml\"><component name=\"c2\" component_ref=\"comp\"/></import>\n";
+    std::string text = "<?xml version=\"1.0\" encoding=\"UTF-8\"?>\n<model xmlns=\"http://www.cellml.org/cellml/2.0#\" name=\"main\">\n" + imports + "</model>\n";
+    auto parser = adopt(Parser::create(strict));
+    auto model = parser->parseModel(text);
+    observe(parser.get(), "world parseModel");
+    if (model == nullptr) return;
+    auto importer = adopt(Importer::create(strict));
+    bool resolved = importer->resolveImports(model, dir + "/");
+    observe(importer.get(), "world resolveImports");
+    explained(!resolved, importer.get(), "resolveImports", "world:" + libName);
+    // a second resolution on the same importer (library cache) and a flatten
+    bool resolved2 = importer->resolveImports(model, dir + "/");
+    observe(importer.get(), "world resolveImports(again)");
+    explained(!resolved2, importer.get(), "resolveImports", "world:" + libName);
+    if (resolved) {
+        auto flat = importer->flattenModel(model);
+        observe(importer.get(), "world flattenModel");
+        explained(flat == nullptr, importer.get(), "flattenModel", "world:" + libName);
+    }
+    forget(parser.get()); forget(importer.get());
+}
+
+static void worlds(const std::string &dir)
+{
+    auto variants = libraryVariants();
+    for (auto &v : variants) writeFile(dir + "/" + v.first + ".cellml", v.second);
+    size_t index = 0;
+    for (auto &v : variants) {
+        for (int strict = 0; strict < 2; ++strict) {
+            for (int what = 1; what < 8; ++what) {
+                ++index;
+                fflush(stdout);
+                pid_t pid = fork();
+                if (pid == 0) {
+                    alarm(60);
+                    gNext = 500000 + int(index) * 100;
+                    worldScenario(dir, v.first, strict != 0, what);
+                    printf("Z issues_audited=%zu observations=%zu files=1\n", gIssuesAudited, gObs);
+                    fflush(stdout);
+                    _exit(0);
+                }
+                int st = 0;
+                waitpid(pid, &st, 0);
+                if (WIFSIGNALED(st)) printf("X crash world=%s strict=%d what=%d signal=%d\n", v.first.c_str(), strict, what, WTERMSIG(st));
+            }
+        }
+    }
+}
+
 // every value of the two enumerations through the real accessors (C15-4)
 static int enumerations(int nRules, int nTypes)
 {
@@ -261,7 +350,8 @@ static int enumerations(int nRules, int nTypes)
 int main(int argc, char **argv)
 {
     if (argc == 4 && std::string(argv[1]) == "enums") return enumerations(atoi(argv[2]), atoi(argv[3]));
-    if (argc < 4) { fprintf(stderr, "usage: hx_logger <resources dir> <seed> <max files>\n"); return 2; }
+    if (argc == 3 && std::string(argv[1]) == "worlds") { verifLoggerTrace = traceCb; worlds(argv[2]); return 0; }
+    if (argc < 4) { fprintf(stderr, "usage: hx_logger <resources dir> <seed> <max files> | worlds <scratch dir> | enums <nrules> <ntypes>\n"); return 2; }
     std::string dir = argv[1];
     unsigned seed = unsigned(atol(argv[2]));
     size_t maxFiles = size_t(atol(argv[3]));
